@@ -6,6 +6,7 @@ The specification side (`flatConflict`) works on the flat list of accepted
 endpoints and never looks at the trie.
 -/
 import Driver.RouterCommon
+import DropshotModel.Path
 import DropshotModel.Register
 
 open Dropshot Dropshot.Proto Dropshot.RouterCommon
@@ -191,7 +192,10 @@ def handle (line : String) : String :=
       | some path, some v =>
         let (k, t, eps, err) := registerAll Node.empty raws 0 []
         if err.isSome || k ≠ raws.length then bad id "table-not-accepted-by-model" else
-        let segs := splitPath path
+        -- the witness request is a path string: decoded as `lookup_route` decodes it
+        let segs := match Path.inputSegments (path.toUTF8.toList.map (·.toNat)) with
+          | .ok bs => (bs.mapM (fun b => utf8String (b.map (·.toUInt8)))).getD []
+          | .error _ => []
         let model := encLookup (Node.lookup t m segs v)
         let specOk := i.startsWith s!"ok:{eid}:"
         let target := eps.find? fun e => toString e.id == eid
